@@ -61,7 +61,8 @@ func logging(rep *kit.Report, root string) {
 		lines func(dir string) (string, []*logFile)
 	}
 	// (the last placeholder never has a value: the empty-value marker of the log directive, "-", stands for it)
-	format := `"{status} {size} {method} {uri} {>X-Absent}"`
+	// ({user} is set by basicauth, further in, through the request's shared replacer)
+	format := `"{status} {size} {method} {uri} {>X-Absent} {user}"`
 	cfgs := []logCfg{
 		{"one-log", func(d string) (string, []*logFile) {
 			return fmt.Sprintf("\tlog / %s/one.log %s\n", d, format), []*logFile{{path: d + "/one.log", scope: "/"}}
@@ -158,6 +159,10 @@ func logging(rep *kit.Report, root string) {
 						if m == "POST" {
 							hdr = append(hdr, "Content-Length: 0")
 						}
+						authed := p == "/priv/p" && m == "POST"
+						if authed {
+							hdr = append(hdr, "Authorization: Basic dTpw") // u:p, valid for the `basicauth /priv u p` wrapper
+						}
 						raw := kit.Get(m, p+"?k=v", "a.test:8080", hdr...)
 						req := kit.MustReq(raw)
 						origPath := req.URL.Path // rewrites change the URL in place
@@ -198,8 +203,16 @@ func logging(rep *kit.Report, root string) {
 							}
 							if want == 1 {
 								wantLine := fmt.Sprintf("%d %d %s %s -", rec.Status, rec.Body.Len(), m, p+"?k=v")
-								if lines[0] != wantLine {
-									f := strings.Fields(lines[0])
+								// the last field: the authenticated user where basicauth accepted the request; not judged elsewhere
+								gotLine, userField := lines[0], ""
+								if i := strings.LastIndex(gotLine, " "); i >= 0 {
+									gotLine, userField = gotLine[:i], gotLine[i+1:]
+								}
+								if authed && strings.Contains(cf, "basicauth /priv u p") && rec.Status != 401 && userField != "u" {
+									rep.Violation("C20/authenticated-user-not-logged", fmt.Sprintf("basicauth accepted user u for %s, the log line's {user} field is %q", p, userField), c20case{cf, raw, filepath.Base(lf.path), lines, wantLine + " u"})
+								}
+								if gotLine != wantLine {
+									f := strings.Fields(gotLine)
 									kind := "logged-status-wrong"
 									if len(f) >= 2 && f[0] == fmt.Sprint(rec.Status) {
 										kind = "logged-size-wrong"
@@ -213,7 +226,7 @@ func logging(rep *kit.Report, root string) {
 									if strings.Contains(sc, "panic") {
 										kind += "/handler-panicked"
 									}
-									rep.Violation("C20/"+kind, fmt.Sprintf("logged %q, client saw %q", lines[0], wantLine), c20case{cf, raw, filepath.Base(lf.path), lines, wantLine})
+									rep.Violation("C20/"+kind, fmt.Sprintf("logged %q, client saw %q", gotLine, wantLine), c20case{cf, raw, filepath.Base(lf.path), lines, wantLine})
 								}
 								local[fmt.Sprintf("logged/%dxx", rec.Status/100)]++
 							} else if excepted {
